@@ -415,6 +415,12 @@ example : search (bs "b" ++ [0x7C] ++ bs "c") doc2 = search (bs "c") (.obj [(bs 
     (C04G.parse_complete (t := idt "c") (by decide) (by decide)) (by decide)
     ((search_of_tree (T := idt "b") (by decide) (by decide) doc2).trans rfl)
 
+/-- `b|$x`: a free variable of `e2` fails alike on both sides when the `|` stays at the top (`search_pipe_top`) -/
+example : search (bs "b" ++ [0x7C] ++ bs "$x") doc2 = search (bs "$x") (.obj [(bs "c", .bool false)]) :=
+  search_pipe_top (T1 := idt "b") (n2 := .variable (bs "$x")) (by decide) (by decide) (by decide)
+    (C04G.parse_complete (t := .atom ⟨.variable, bs "$x"⟩) (by decide) (by decide)) (by decide)
+    ((search_of_tree (T := idt "b") (by decide) (by decide) doc2).trans rfl)
+
 /-- `let $x = a in b`, with its tree and the path to the place where `| e2` lands: the body of the `let` -/
 def letE : Bytes := bs "let $x = a in b"
 def letT : PTree := .letIn [(⟨.variable, bs "$x"⟩, idt "a")] (idt "b")
